@@ -24,6 +24,7 @@ SHAPES = [
     ("rewire", [[1, 1]], False, Q, dict(params=dict(m=1))), ("rewire", [[1, 0]], False, Q, dict(params=dict(m=2), budget=600, shard=5)),
     ("remap_uri", [[0, 1]], False, Q, dict(params=dict(m=2), budget=600, shard=5)), ("rewire", [[0, 0], [0, 0]], False, Q, dict(params=dict(m=2), budget=600, shard=6)),
     ("rewire", [[1, 0], [0, 1]], False, Q, dict(params=dict(m=1), budget=600, shard=5)),
+    ("remap_uri", [[0, 0], [0, 0]], False, Q, dict(params=dict(m=1, warm=True))), ("rewire", [[0, 0], [0, 0]], False, Q, dict(params=dict(m=1, warm=True))),
     ("remap_uri", [[1, 1], [0, 1]], False, T, dict(params=dict(m=2), budget=3000, shard=9)),
     ("remap_uri", [[0, 0]] * 3, False, T, dict(params=dict(m=2), budget=3000, shard=9)),
     ("rewire", [[1, 1], [0, 1]], False, T, dict(params=dict(m=2), budget=3000, shard=9)),
@@ -44,7 +45,14 @@ def build(job):
         api, rec = eng.mods.api, eng.mods.rec
         recs = mk_recs(eng, params["shape"])
         assume_strict(eng, recs)
-        c = api.Converter([api.Record(**r.kwargs()) for r in recs])
+        if params.get("warm"):
+            # the converter has a history: it was reconciled once (with an empty mapping), then gained its last record
+            c = api.Converter([api.Record(**r.kwargs()) for r in recs[:-1]])
+            rec.remap_uri_prefixes(c, eng.mkdict([]))
+            rec.rewire(c, eng.mkdict([]))
+            c.add_record(api.Record(**recs[-1].kwargs()))
+        else:
+            c = api.Converter([api.Record(**r.kwargs()) for r in recs])
         m = params["m"]
         keys = [eng.var(f"k{i}") for i in range(m)]
         vals = [eng.var(f"v{i}") for i in range(m)]
